@@ -339,7 +339,7 @@ def run(tier, seed):
         steps += n
         for v in viol:
             rep.violation(*v)
-    ntr = search_traces(rep, [seed] if tier == "quick" else [seed, seed + 1, seed + 2, seed + 3])
+    ntr = search_traces(rep, [seed + k for k in range(4 if tier == "quick" else 24)])
     rep.add(traces_validated_against_impl=len(allh) + ntr, replayed_steps=steps, exhaustive_histories=len(hists), exhaustive=True,
             rule="all histories of %d operations from 4 seed forests over 11 operation kinds (<= %d nodes), plus %d simulated "
                  "behaviours of depth %d (<= 7 nodes); search runs snapshot at every operator call and emission" % (eo, en, len(sim), depth - 1))
